@@ -522,7 +522,7 @@ func (e *Enc) siteLabel() string {
 }
 
 // frame obligation for a write to object `ref`
-func (e *Enc) frameWrite(ref string, what string) {
+func (e *Enc) frameWrite(ref string, what string, heap string) {
 	if ref == "" {
 		if e.fv.hasModSpec() {
 			e.oblige("frame", fmt.Sprintf("frame/%s@%s", what, e.siteLabel()), "false", e.fv.modTags(), "write to package-level variable")
@@ -532,7 +532,7 @@ func (e *Enc) frameWrite(ref string, what string) {
 	if !e.fv.hasModSpec() {
 		return
 	}
-	goal := fmt.Sprintf("(or (not (isalloc %s %s)) %s)", e.H0(heapAlloc), ref, e.fv.modPred(e, ref))
+	goal := fmt.Sprintf("(or (not (isalloc %s %s)) %s)", e.H0(heapAlloc), ref, e.fv.modPred(e, ref, heap))
 	e.oblige("frame", fmt.Sprintf("frame/%s@%s", what, e.siteLabel()), goal, e.fv.modTags(), "modifies clause of "+funcKey(e.fn))
 }
 
@@ -618,7 +618,7 @@ func (e *Enc) instr(in ssa.Instruction) {
 		if p.kind == pObj || p.kind == pCell {
 			e.safety("nil-deref", fmt.Sprintf("(not (= %s nil))", p.ref))
 		}
-		e.frameWrite(p.rootRef(), "store")
+		e.frameWrite(p.rootRef(), "store", p.heaps(e.w)[0])
 		e.store(p, e.val(x.Val))
 	case *ssa.BinOp:
 		e.binop(x)
@@ -704,8 +704,8 @@ func (e *Enc) instr(in ssa.Instruction) {
 		mt := x.Map.Type().Underlying().(*types.Map)
 		m, k, v := e.val(x.Map), e.val(x.Key), e.val(x.Value)
 		e.safety("nil-map-write", fmt.Sprintf("(not (= %s nil))", m))
-		e.frameWrite(m, "mapupdate")
 		hd, hv := w.heapMapDom(mt), w.heapMapVal(mt)
+		e.frameWrite(m, "mapupdate", hd)
 		e.storeRef(hd, m, fmt.Sprintf("(store (select %s %s) %s true)", e.H(hd), m, k))
 		e.storeRef(hv, m, fmt.Sprintf("(store (select %s %s) %s %s)", e.H(hv), m, k, v))
 	case *ssa.Range:
